@@ -119,7 +119,7 @@ def units(tier):
     for tag, a, e in ei.big():
         last = tag.rsplit(":", 1)[1]
         k = int(last) if last.isdigit() else 1
-        if tier == "thorough" or k in (1, 2, 3, 12, 20, 59, 60, 63, 64, 250, 300, 600):
+        if tier == "thorough" or k in (1, 2, 3, 12, 20, 59, 60, 63, 64, 99, 100, 101, 199, 250, 300, 600):
             out.append(("case", tag.split(":")[0], a, e))
     # literal contents (backslash escapes, quotes, non-ASCII, separators) in group / operand / salt position,
     # and the same contents inside comments of the source text
